@@ -89,7 +89,8 @@ INFO = {
 
 # round 2 (s3..s5): descriptions derived from each patch and its demo
 NOT_CAUGHT = {}
-for _f in ("seedinfo_round2.json", "seedinfo_round3.json", "seedinfo_round4.json", "seedinfo_round5.json"):
+for _f in ("seedinfo_round2.json", "seedinfo_round3.json", "seedinfo_round4.json", "seedinfo_round5.json",
+           "seedinfo_round6.json"):
     if (ROOT / "tools" / _f).exists():
         for _k, _v in json.loads((ROOT / "tools" / _f).read_text()).items():
             INFO[_k] = (_v["what"], _v["needs"])
